@@ -337,7 +337,24 @@ func checkMutant(r *ev.Run, t *lrref.Table, toks []ebnfref.Token, family string)
 }
 
 func checkLexical(r *ev.Run, t *lrref.Table, toks []ebnfref.Token, gap int, damage string) {
-	for _, lay := range layouts {
+	// besides the five layouts: the stray text glued to the token before it, to the token after it, and to both
+	lays := append([]layout{}, layouts...)
+	for _, g := range []struct {
+		name        string
+		left, right bool
+	}{{"glued-left", true, false}, {"glued-right", false, true}, {"glued-both", true, true}} {
+		g := g
+		lays = append(lays, layout{g.name, func(i int) string {
+			switch {
+			case i == 0:
+				return ""
+			case i == gap && g.left, i == gap+1 && g.right:
+				return ""
+			}
+			return " "
+		}, "\n"})
+	}
+	for _, lay := range lays {
 		// build text: tokens[:gap] damage tokens[gap:]
 		with := append(append(append([]ebnfref.Token{}, toks[:gap]...), ebnfref.Token{Kind: "?", Text: damage}), toks[gap:]...)
 		text, _ := ebnfref.Render(with, lay.sep, lay.end)
@@ -405,7 +422,7 @@ func main() {
 		r.Finish()
 	}
 	if r.Fork(16) {
-		r.Set("rule", "5 valid token sequences (7-70 tokens) x {delete token i, insert each of the 22 kinds before token i, replace token i by each kind, truncate before token i} for every i, and 14 kinds of lexical damage (a NUL character among them) in every gap; each in five layouts (one line; one token per line; CR LF line ends; lone CRs between tokens; block and line comments with LF and CR LF inside in every gap); each rejected mutant re-rendered with 4 different continuations after the offending token; non-trivial = a mutant that is not a specification; distinct by text")
+		r.Set("rule", "5 valid token sequences (7-70 tokens) x {delete token i, insert each of the 22 kinds before token i, replace token i by each kind, truncate before token i} for every i, and 20 kinds of lexical damage (NUL, control characters and a no-break space among them) in every gap (also glued to the token before it, after it, and both); each in five layouts (one line; one token per line; CR LF line ends; lone CRs between tokens; block and line comments with LF and CR LF inside in every gap); each rejected mutant re-rendered with 4 different continuations after the offending token; non-trivial = a mutant that is not a specification; distinct by text")
 		r.Set("evaluations", r.Get("mutants"))
 		r.Finish()
 	}
@@ -449,7 +466,7 @@ func main() {
 					checkMutant(r, t, append(append(append([]ebnfref.Token{}, toks[:i]...), spell(k)), toks[i+1:]...), "replace")
 				}
 			}
-			for _, dmg := range []string{"#", "é", "0", "_", `"abc`, "/abc", "/* abc", "@lef", "$", "A", "'", "\\", "\x00", "\x00\x00x"} {
+			for _, dmg := range []string{"#", "é", "0", "_", `"abc`, "/abc", "/* abc", "@lef", "$", "A", "'", "\\", "\x00", "\x00\x00x", "\f", "\v", "\x1b", "\x01", "\x7f", "\u00a0"} {
 				if mine() {
 					checkLexical(r, t, toks, i, dmg)
 				}
